@@ -152,25 +152,42 @@ def _grid_cmd(thm):
 
 
 def _split_tie():
-    """(imports, preamble, {theorem: block text}, tail) of the committed Tie.lean."""
+    """(imports, preamble, {name: block text}, tail) of the committed Tie.lean. A block is one theorem (with its doc comment) or one
+    run of other top-level items between theorems (definitions, section comments: named `__helper_<k>`, always kept), so that
+    leaving a theorem out never takes a definition a later theorem needs with it."""
     lines = open(TIE).read().split('\n')
     imports = [l for l in lines if l.startswith('import ') and 'FxpVerif.Gen.Sizing' not in l]
     lines = [l for l in lines if not l.startswith('import ')]
-    starts = []
-    for i, l in enumerate(lines):
-        if l.startswith('theorem '):
+    end = next(i for i, l in enumerate(lines) if l.startswith('end Fxp.Gen.Tie'))
+    heads = []          # (first line of the item incl. its doc comment, kind, name)
+    for i, l in enumerate(lines[:end]):
+        m = re.match(r'(theorem|def|abbrev|instance|lemma|macro|syntax|local macro|open|section|namespace)\b\s*(\w+)?', l)
+        if m or l.startswith('/-!'):
             j = i
-            if i > 0 and lines[i - 1].rstrip().endswith('-/'):       # doc comment directly above
+            if m and i > 0 and lines[i - 1].rstrip().endswith('-/') and not lines[i - 1].startswith('/-!'):
                 j = i - 1
                 while j > 0 and not lines[j].startswith('/--'):
                     j -= 1
-            starts.append((j, re.match(r'theorem (\w+)', l).group(1)))
-    end = next(i for i, l in enumerate(lines) if l.startswith('end Fxp.Gen.Tie'))
-    pre = '\n'.join(lines[:starts[0][0]])
+            heads.append((j, 'theorem' if m and m.group(1) == 'theorem' else 'other', m.group(2) if m and m.group(1) == 'theorem' else None))
+    first_thm = next(k for k, h in enumerate(heads) if h[1] == 'theorem')
+    pre = '\n'.join(lines[:heads[first_thm][0]])
     blocks = {}
-    for k, (j, name) in enumerate(starts):
-        stop = starts[k + 1][0] if k + 1 < len(starts) else end
-        blocks[name] = '\n'.join(lines[j:stop]).rstrip() + '\n'
+    k = first_thm
+    nh = 0
+    while k < len(heads):
+        j, kind, name = heads[k]
+        if kind == 'theorem':
+            stop = heads[k + 1][0] if k + 1 < len(heads) else end
+            blocks[name] = '\n'.join(lines[j:stop]).rstrip() + '\n'
+            k += 1
+        else:
+            k2 = k
+            while k2 < len(heads) and heads[k2][1] != 'theorem':
+                k2 += 1
+            stop = heads[k2][0] if k2 < len(heads) else end
+            blocks['__helper_%d' % nh] = '\n'.join(lines[j:stop]).rstrip() + '\n'
+            nh += 1
+            k = k2
     return imports, pre, blocks, 'end Fxp.Gen.Tie\n'
 
 
